@@ -1,4 +1,5 @@
 import SasLexer.Proofs.Tables
+import SasLexer.Properties.C06
 /-!
 # C18 — `macro_sep` only adds separator tokens: theorems
 
@@ -9,6 +10,10 @@ decision of the model coincides with the specification's placement rule.  The re
 (the two runs perform the same operations) is decided per run by `Spec.C18` on the pair of
 implementation dumps of the two feature builds and tied by model/implementation correspondence
 in both feature configurations.
+
+Proved for the model, every input (corollaries of the channel / payload-kind pass of `Properties/C06.lean`):
+`C18_no_sep_without_feature` — a build without the feature emits no `MacroSep` at all; `C18_sep_shape` — with the
+feature, every `MacroSep` is on the default channel and carries no payload.
 -/
 namespace SasLexer
 
@@ -41,5 +46,23 @@ example : Spec.C18 "a %let x=1; b %lbl: c".toList
     (modelDump ⟨false, true, false⟩ "a %let x=1; b %lbl: c".toList) = []
   ∧ ((modelDump ⟨false, true, false⟩ "a %let x=1; b %lbl: c".toList).toks.filter (·.ty == .MacroSep)).length = 2 := by
   decide +kernel
+
+
+theorem C18_no_sep_without_feature (s : List Char) (dbg : Bool) :
+    ∀ t ∈ (modelDump ⟨dbg, false, false⟩ s).toks, t.ty ≠ .MacroSep :=
+  model_no_sep_without_feature ⟨dbg, false, false⟩ s rfl
+
+theorem C18_sep_shape (cfg : Cfg) (s : List Char) :
+    ∀ t ∈ (modelDump cfg s).toks, t.ty = .MacroSep → t.chan = .DEFAULT ∧ t.payload = .none := by
+  intro t ht hty
+  have h := C06_model_tables cfg s
+  rw [List.all_eq_true] at h
+  have h1 := h t ht
+  simp only [tokInfoOK, Bool.and_eq_true] at h1
+  obtain ⟨⟨hc, hp⟩, _⟩ := h1
+  rw [hty] at hc hp
+  refine ⟨?_, ?_⟩
+  · cases hch : t.chan <;> simp [hch, chanOK, isCommentTy] at hc ⊢
+  · cases hpl : t.payload <;> simp [hpl, payKindOK, isStrTy, isIntTy, isFloatTy] at hp ⊢
 
 end SasLexer
